@@ -181,8 +181,13 @@ class Runner:
         }
         if cls["algo"] == "DQN":
             plan["policy"] = {"q": gen_q_table(rng, self.NS, self.comps[0])}
+            if cls.get("iid_probe"):
+                plan["policy"] = {"q": [[0.0] * self.comps[0] for _ in range(self.NS)]}  # epsilon = 1: uniform actions, state-independent
         else:
             plan["policy"] = gen_sac_tables(rng, self.NS, self.d)
+            if cls.get("iid_probe"):
+                plan["policy"]["loc"] = [[0.0] * self.d for _ in range(self.NS)]
+                plan["policy"]["amp"] = [[1.0] * self.d for _ in range(self.NS)]
             plan["critics"] = {
                 "q1": [rng.randint(-16, 16) / 4.0 for _ in range(self.NS)], "q2": [rng.randint(-16, 16) / 4.0 for _ in range(self.NS)],
                 "w1": rng.choice([0.0, 0.5, -0.5]), "w2": rng.choice([0.0, 0.25]),
@@ -326,6 +331,8 @@ class Runner:
                     check_node_buffer(res, props, mdp, node, i, bufs[i], cap, expected_pos, alpha, trace=tr)
                 if "C05" in props:
                     res.ok("C05", "warmup_count")
+                if "C12" in props and cls.get("iid_probe") and n > 1:
+                    self._iid_check(res, bufs, 0, cls["starts"], "warm-up")
                 if "C10" in props and int(state.iteration_count) != 0:
                     res.fail("C10", "iteration_counter", "not_zero_after_reset", got=int(state.iteration_count))
                 snaps = self._snapshot(state)
@@ -341,6 +348,8 @@ class Runner:
                 check_node_buffer(res, props, mdp, nodes[i], i, bufs[i], cap, expected_pos, alpha, trace=tr)
             if "C05" in props:
                 res.ok("C05", "per_node_buffer", n)
+            if "C12" in props and cls.get("iid_probe") and n > 1:
+                self._iid_check(res, bufs, cls["starts"], expected_pos, "iterations")
             new_snaps = self._snapshot(state)
             if "C10" in props:
                 self._check_schedule(res, plan, it_before, int(state.iteration_count), snaps, new_snaps)
@@ -352,6 +361,29 @@ class Runner:
                 self._perturb_check(res, f, algo, state_in, op["key"], cb, state)
             state = eqx.tree_at(lambda s: s.callback_state, state, SpyState(None), is_leaf=lambda x: x is None)
         return res
+
+    def _iid_check(self, res, bufs, lo, hi, phase):
+        """N parallel collections are N INDEPENDENT collections: with a behaviour that is uniformly random and does not
+        depend on the state, two nodes can only produce the same action stream by chance (probability <= 2^-bits)."""
+        cap = self.cap
+        if hi - lo <= 0 or hi > cap:
+            return
+        streams = [np.asarray(b["actions"][lo:hi]) for b in bufs]
+        if self.cls["algo"] == "DQN":
+            bits = (hi - lo) * np.log2(self.comps[0])
+        else:
+            bits = 64.0 if hi - lo >= 2 else 0.0  # continuous draws: equality has probability zero
+        if bits < 40:
+            res.probes["iid_probe_too_short"] += 1
+            return
+        for i in range(len(streams)):
+            for j in range(i + 1, len(streams)):
+                if np.array_equal(streams[i], streams[j]):
+                    res.fail("C12", "node_streams_independent", f"identical_action_streams_across_nodes:{phase}", nodes=[i, j], steps=int(hi - lo), bits=float(bits),
+                             stream=streams[i].tolist()[:12])
+                    return
+        res.ok("C12", "node_streams_independent")
+        res.faults["F.iid_probe"] += 1
 
     # ------------------------------------------------------------------ snapshots and schedule
 
